@@ -82,7 +82,9 @@ fn derive(s1: &[u32], d: &Derive, l: usize) -> Vec<u32> {
 }
 
 fn strategy(max_len: usize, min_l: usize, max_l: usize, trials: u64) -> impl Strategy<Value = Case> {
-    (prop::sample::select(vec![1u32, 2, 4, 7, 32, 128]), min_l..=max_l, any::<bool>(), 1u32..9, prop_oneof![3 => Just(0u8), 1 => Just(1u8), 1 => Just(2u8)]).prop_flat_map(move |(m, l, wy, alpha, family)| {
+    // for long selections only small edits leave a collision probability strictly between 0 and 1
+    let small_edits = min_l > 1;
+    (prop::sample::select(vec![1u32, 2, 4, 7, 32, 128]), min_l..=max_l, any::<bool>(), 1u32..9, prop_oneof![3 => Just(0u8), 1 => Just(1u8), 1 => Just(2u8), 1 => Just(3u8), 1 => Just(4u8)]).prop_flat_map(move |(m, l, wy, alpha, family)| {
         let hi = max_len.max(l + 1);
         let runs = (prop::collection::vec((0u32..alpha, 1usize..4), 1..6)).prop_map(|rs| rs.into_iter().flat_map(|(s, k)| std::iter::repeat(s).take(k)).collect::<Vec<u32>>());
         let base = prop_oneof![3 => prop::collection::vec(0u32..alpha, l..=hi), 1 => runs].prop_map(move |mut v: Vec<u32>| {
@@ -102,7 +104,11 @@ fn strategy(max_len: usize, min_l: usize, max_l: usize, trials: u64) -> impl Str
             2 => prop::collection::vec(0u32..alpha + 1, 1..8).prop_map(Derive::CommonPrefix),
             2 => prop::collection::vec(0u32..alpha, l..=hi).prop_map(Derive::Independent),
             1 => Just(Derive::Reverse),
-        ];
+        ]
+        .prop_map(move |d| match d {
+            Derive::Disjoint | Derive::Independent(_) | Derive::Reverse if small_edits => Derive::Edit(7, 0),
+            other => other,
+        });
         (base, der, any::<u64>()).prop_map(move |(s1, d, seed)| {
             let mut s2 = derive(&s1, &d, l);
             s2.truncate(hi.max(l));
@@ -126,7 +132,10 @@ fn sample<H: Hasher + Default>(c: &Case, seed: u64, trials: u64) -> Acc {
             *lab = match c.family {
                 0 => rng.next_u64(),
                 1 => (base ^ i as u64).swap_bytes(),
-                _ => ((base & 0xFFFF_FFFF) | ((i as u64 + 1) << 32)).swap_bytes(),
+                2 => ((base & 0xFFFF_FFFF) | ((i as u64 + 1) << 32)).swap_bytes(),
+                // hash values whose two 32-bit halves have a constant xor (3) or a constant sum (4): any 32-bit folding of the hash collides
+                3 => (((i as u64 + 1) << 32) | ((base ^ (i as u64 + 1)) & 0xFFFF_FFFF)).swap_bytes(),
+                _ => (((i as u64 + 1) << 32) | ((base & 0xFFFF_FFFF).wrapping_sub(i as u64 + 1) & 0xFFFF_FFFF)).swap_bytes(),
             };
         }
         for (i, x) in c.s1.iter().enumerate() {
